@@ -543,6 +543,20 @@ def run_conv(key):
     # whole-number points handed over as int64 arrays / Python ints are the same points
     if np.array_equal(P, np.rint(P)):
         Pi = P.astype(np.int64)
+        # narrow integer types whose squares overflow (int16 from |x| = 182, int32 from 46341)
+        for dt, mult in ((np.int16, 1), (np.int32, 100), (np.int32, 1)):
+            Pn = Pi * mult
+            if np.abs(Pn).max() > np.iinfo(dt).max:
+                continue
+            _count(res, "conv_dtype_irrelevant")
+            res["n"] += 1
+            try:
+                on = [np.asarray(v, float) for v in g.to_spherical(Pn[:, 0].astype(dt), Pn[:, 1].astype(dt), Pn[:, 2].astype(dt))]
+                of = [np.asarray(v, float) for v in g.to_spherical(Pn[:, 0].astype(float), Pn[:, 1].astype(float), Pn[:, 2].astype(float))]
+                if not all(same(a_, b_) for a_, b_ in zip(on, of)):
+                    res["viol"].append({"clause": "conv_dtype_irrelevant", "key": dict(key, form="narrow_int_input_differs_from_float_input", dtype=np.dtype(dt).name, mult=mult), "detail": {"r_int": on[0].tolist()[:6], "r_float": of[0].tolist()[:6]}})
+            except Exception as e:
+                res["viol"].append({"clause": "conv_dtype_irrelevant", "key": dict(key, form="raises_" + type(e).__name__, dtype=np.dtype(dt).name), "detail": {"exception": repr(e)[:200]}})
         _count(res, "conv_dtype_irrelevant", 2)
         res["n"] += 2
         try:
